@@ -8,5 +8,5 @@ CONSTANTS
   Scripts <- SmallScripts
   CancelTimes <- NoCancel
   SupportsParallel = TRUE
-INVARIANTS C07_Fold C07_Running C03_Shape C03_LowestDest C06_Order C06_Paced C06_Stop C05_RTT C08_Bound C08_Cancel EmitOut
+INVARIANTS C07_Fold C07_Running C03_Shape C03_LowestDest C06_Order C06_Paced C06_Stop C05_RTT C08_Bound C08_Cancel EmitOut ClipCopyAgrees ClipHyp
 CHECK_DEADLOCK FALSE
